@@ -447,7 +447,9 @@ func c16Run(cfg c16Cfg, init []Row, ops []c16Op) (got, want []*c16Out, execErr s
 		for i, op := range ops {
 			switch op.Kind {
 			case "emit":
-				row := Row{"id": i + 1}
+				// the stream row carries a column of its own named like the selected table column: it must never
+				// stand in for the table's column (no match -> NULL under LEFT JOIN)
+				row := Row{"id": i + 1, "loc": fmt.Sprintf("own%d", i+1)}
 				for j, f := range cfg.streamKeys() {
 					if op.Key[j] != nil {
 						row[f] = op.Key[j]
